@@ -167,8 +167,8 @@ def run(chk):
             for iname in ('malware+markings+custom (2.1)', 'identity (2.0)'):
                 for fname in ('add_markings', 'set_markings', 'remove_markings', 'clear_markings', 'get_markings', 'is_marked'):
                     for form in ('function(object)', 'function(dict)', 'method'):
-                        for sels in (['name', 'labels', 'created'], ['name', 'created', 'name'], ('name', 'created')):
-                            yield ('markings', iname, fname, form, sels)
+                        for sels in (['name', 'labels', 'created'], ['name', 'created', 'name'], ('name', 'created'), ['name']):
+                            for layout in ('grouped', 'one entry per pair'): yield ('markings', iname, fname, form, sels, layout)
             for dname, d in (('registered observable (2.0 form)', {'type': 'file', 'name': 'f', 'hashes': {'md5': 'a' * 32}, 'parent_directory_ref': '1', 'extensions': {'ntfs-ext': {'sid': 's'}}}),
                              ('unregistered observable', {'type': 'x-vf-unreg-obs', 'foo': [1, {'a': [2]}], 'bar_ref': '1'}),
                              ('registered observable (2.1 form)', {'type': 'file', 'spec_version': '2.1', 'id': 'file--' + G.UUID, 'name': 'f', 'hashes': {'sha256': 'c' * 64}})):
@@ -178,10 +178,14 @@ def run(chk):
 
         def arg_check(case):
             if case[0] == 'markings':
-                _, iname, fname, form, sels = case
+                _, iname, fname, form, sels, layout = case
                 d = copy.deepcopy(ins[iname]); o = stix2.parse(copy.deepcopy(d), allow_custom=True)
-                if fname in ('remove_markings', 'clear_markings'):
-                    d['granular_markings'] = [{'marking_ref': TLP, 'selectors': sorted(set(sels))}, {'marking_ref': M2x, 'selectors': sorted(set(sels))}]; o = stix2.parse(copy.deepcopy(d), allow_custom=True)
+                if fname in ('remove_markings', 'clear_markings', 'set_markings', 'get_markings', 'is_marked') or layout != 'grouped':
+                    # the object already carries the markings: grouped per marking, or spelled out as one entry per (marking, selector) pair -- both valid
+                    if layout == 'grouped': gm = [{'marking_ref': TLP, 'selectors': sorted(set(sels))}, {'marking_ref': M2x, 'selectors': sorted(set(sels))}]
+                    else: gm = [{'marking_ref': m, 'selectors': [x]} for m in (TLP, M2x) for x in sorted(set(sels))]
+                    if 'spec_version' in d: gm = gm + [{'lang': 'en', 'selectors': [sorted(set(sels))[0]]}]
+                    d['granular_markings'] = gm; o = stix2.parse(copy.deepcopy(d), allow_custom=True)
                 sel_arg = copy.deepcopy(sels); marks = [M2x, TLP]; target = o if form != 'function(dict)' else d
                 s0, m0, t0 = snapshot(sel_arg), snapshot(marks), snapshot(target)
                 try:
@@ -202,7 +206,7 @@ def run(chk):
                 if snapshot(d1) != d0: return ('frame#parse_observable:dictionary argument', f'{dname}: parse_observable(allow_custom={ac}, version={ver}, _valid_refs={refs!r}) changed the caller\'s dictionary into {d1!r:.200}', {})
                 if snapshot(r1) != r0: return ('frame#parse_observable:reference scope argument', f'{dname}: parse_observable changed the caller\'s _valid_refs into {r1!r}', {})
         chk.bounded('frame: every argument of the marking functions and of parse_observable', list(arg_cases()), arg_check, classify=lambda c: tuple(repr(x)[:40] for x in c),
-                    bound='6 marking functions x 3 call forms x 3 unsorted / repeated selector lists (list and tuple) x 2 objects; parse_observable on 3 dictionaries x custom modes x versions x 3 reference scopes')
+                    bound='6 marking functions x 3 call forms x 4 selector lists (unsorted, repeated, tuple, single) x 2 layouts of the markings already carried (grouped / one entry per pair, plus a language marking) x 2 objects; parse_observable on 3 dictionaries x custom modes x versions x 3 reference scopes')
 
         # ---- object factories: the defaults handed to a factory stay the caller's, and what one create() call adds does not show up in the next
         def factory_cases():
@@ -227,6 +231,30 @@ def run(chk):
             if [e['source_name'] for e in o2.external_references] != ['s'] or list(o2.object_marking_refs) != [TLP]:
                 return ('frame#ObjectFactory.create:later objects', f'{how}, list_append={append}: an object created later carries what was given to an earlier create() only: {[e["source_name"] for e in o2.external_references]}, {list(o2.object_marking_refs)}', {})
         chk.bounded('frame: object factory defaults', list(factory_cases()), factory_check, classify=lambda c: c, bound='3 ways of giving list defaults x single value / list override x list_append on / off')
+
+        # ---- dictionaries handed over as the VALUE of an option keyword (custom_properties=...), next to other keywords of the same call
+        def optdict_cases():
+            for ver, V_, extra in (('2.1', stix2.v21, {}), ('2.0', stix2.v20, {'identity_class': 'individual'})):
+                for cp in ({'x_a': 1}, {'x_b': [1, {'c': 2}], 'x_a': 'v'}, {}):
+                    for others in ({}, {'x_other': 1}, {'x_other': {'n': [1]}, 'x_more': 2}):
+                        for route in ('constructor', 'new_version(object)', 'new_version(dict)', 'parse(dict with a custom_properties member)'): yield (ver, V_, extra, cp, others, route)
+
+        def optdict_check(case):
+            ver, V_, extra, cp, others, route = case
+            mine = copy.deepcopy(cp); before = snapshot(mine)
+            try:
+                if route == 'constructor': V_.Identity(name='n', custom_properties=mine, allow_custom=True, **dict(extra, **copy.deepcopy(others)))
+                elif route == 'new_version(object)': V.new_version(V_.Identity(name='n', allow_custom=True, **dict(extra, **copy.deepcopy(others))), custom_properties=mine, allow_custom=True)
+                elif route == 'new_version(dict)': V.new_version(json.loads(V_.Identity(name='n', allow_custom=True, **dict(extra, **copy.deepcopy(others))).serialize()), custom_properties=mine, allow_custom=True)
+                else:
+                    whole = dict(json.loads(V_.Identity(name='n', **extra).serialize()), custom_properties=mine, **copy.deepcopy(others)); w0 = snapshot(whole)
+                    stix2.parse(whole, allow_custom=True)
+                    if snapshot(whole) != w0: return ('frame#option dictionary:parse', f'{ver}: parse(dict with custom_properties={cp!r} and {others!r}) changed its argument into {whole!r:.200}', {})
+            except (stix2.exceptions.STIXError, ValueError, TypeError): pass
+            if snapshot(mine) != before:
+                return (f'frame#option dictionary:{route}', f'{ver} {route}: the dictionary given as custom_properties={cp!r} next to {others!r} is {mine!r} afterwards', {})
+        chk.bounded('frame: dictionaries given as option keyword values', list(optdict_cases()), optdict_check, classify=lambda c: (c[0], repr(c[3]), repr(c[4]), c[5]),
+                    bound='custom_properties dictionaries of 3 shapes x 3 sets of other custom keywords x 4 routes x both versions')
 
         def imm_cases():
             for iname in ins:
